@@ -55,6 +55,54 @@ def fieldsGo : Str → Str → List Str
 
 def fields (s : Str) : List Str := fieldsGo [] s
 
+/-! Linear-time implementations for the compiled driver (the definitions above
+copy the accumulator on every character: quadratic on the 70 000-character
+tags the harness generates).  `csimp` replaces them in compiled code only; all
+theorems are about `split` / `fields`. -/
+
+def splitGoR (sep : Char) : Str → Str → List Str
+  | cur, [] => [cur.reverse]
+  | cur, c :: cs => if c == sep then cur.reverse :: splitGoR sep [] cs else splitGoR sep (c :: cur) cs
+
+theorem splitGoR_eq (sep : Char) (cur s : Str) : splitGoR sep cur s = splitGo sep cur.reverse s := by
+  induction s generalizing cur with
+  | nil => rfl
+  | cons c cs ih =>
+    simp only [splitGoR, splitGo]
+    split
+    · rw [ih]; rfl
+    · rw [ih]; simp
+
+def splitFast (sep : Char) (s : Str) : List Str := splitGoR sep [] s
+
+@[csimp] theorem split_eq_splitFast : @split = @splitFast := by
+  funext sep s; simp [split, splitFast, splitGoR_eq]
+
+def fieldsGoR : Str → Str → List Str
+  | cur, [] => if cur.isEmpty then [] else [cur.reverse]
+  | cur, c :: cs =>
+    if isSpace c then (if cur.isEmpty then fieldsGoR [] cs else cur.reverse :: fieldsGoR [] cs)
+    else fieldsGoR (c :: cur) cs
+
+theorem fieldsGoR_eq (cur s : Str) : fieldsGoR cur s = fieldsGo cur.reverse s := by
+  induction s generalizing cur with
+  | nil => simp [fieldsGoR, fieldsGo]
+  | cons c cs ih =>
+    simp only [fieldsGoR, fieldsGo, List.isEmpty_reverse]
+    split
+    · split
+      · rw [ih]; rfl
+      · rw [ih]; rfl
+    · rw [ih]; simp
+
+def fieldsFast (s : Str) : List Str := fieldsGoR [] s
+
+@[csimp] theorem fields_eq_fieldsFast : @fields = @fieldsFast := by
+  funext s; simp [fields, fieldsFast, fieldsGoR_eq]
+
+/-- Length of the UTF-8 encoding (Go's `len` of a string). -/
+def utf8Len (s : Str) : Nat := s.foldl (fun n c => n + c.utf8Size) 0
+
 def trimLeft (s : Str) : Str := s.dropWhile isSpace
 def trimRight (s : Str) : Str := (s.reverse.dropWhile isSpace).reverse
 /-- `strings.TrimSpace`. -/
@@ -328,6 +376,83 @@ def lineExpr (tc : Char → Bool) (c : Constraint) : Expr :=
   match c.map (fun o => clauseExpr tc (optText o)) with
   | [] => .tag ignoreTag
   | y :: ys => orAll y ys
+
+/-! ### `Format`'s error outcome (finding F8e)
+
+`buildtags.Format` reads go/format's output back with a default `bufio.Scanner`,
+whose token (line) limit is 64 KiB: a line of `scanLimit` bytes or more makes
+`Format` return an error (both printers then return that error and print no
+file).  When go/format synthesised a `//go:build` line it is the longest line of
+its output (the `// +build` lines go/format regenerates from it repeat a part of
+its literals with shorter separators: not modelled, trusted); otherwise the
+source lines are unchanged. -/
+
+def scanLimit : Nat := 65536
+
+/-- The lines of go/format's output that can reach the scanner limit. -/
+def scannedLines (tc : Char → Bool) (src : Str) : List Str :=
+  match formatHeader tc src with
+  | .goBuild e => [goBuildPrefix ++ e.print]
+  | .none => split '\n' src
+
+def tooLong (l : Str) : Bool := decide (scanLimit ≤ utf8Len l)
+
+/-- `buildtags.Format(cs)`: `none` = a non-nil error (`bufio.Scanner: token too long`). -/
+def formatChecked (tc : Char → Bool) (cs : Constraints) : Option Header :=
+  let src := goString cs ++ stubSuffix
+  if (scannedLines tc src).any tooLong then Option.none else some (formatHeader tc src)
+
+/-- What happens to a file whose constraints are `cs` under tag assignment `v`. -/
+inductive Outcome where
+  /-- `Format` fails: both printers return an error, no file is printed -/
+  | formatError
+  /-- a file is printed, the toolchain rejects its constraint line -/
+  | rejected
+  /-- a file is printed and the toolchain selects it iff `b` -/
+  | selected (b : Bool)
+  deriving Repr, DecidableEq
+
+def outcome (tc : Char → Bool) (v : Str → Bool) (cs : Constraints) : Outcome :=
+  match formatChecked tc cs with
+  | Option.none => .formatError
+  | some h =>
+    match toolchainSelects v h with
+    | Option.none => .rejected
+    | some b => .selected b
+
+/-- The `//go:build` expression of a set whose lines all convert. -/
+def headerExpr (tc : Char → Bool) : Constraints → Option Expr
+  | [] => Option.none
+  | c :: cs => some (andAll (lineExpr tc c) (cs.map (lineExpr tc)))
+
+/-! ### Acceptor: the property on what the implementation did with one formula -/
+
+/-- Observations of the real code on one constraint set, over the enumerated
+assignments `0 … n-1`. -/
+structure Obs where
+  /-- `Format` returned an error -/
+  fmtErr : Bool
+  /-- the toolchain (`go/build/constraint.Parse`) rejected a printed constraint line -/
+  rejected : Bool
+  /-- avo's `Evaluate` per assignment -/
+  ev : List Bool
+  /-- `go/build/constraint` evaluation of the printed lines per assignment (`none` = no answer) -/
+  tcb : List (Option Bool)
+  /-- `go/build.Context.MatchFile` on the printed stub file / assembly file -/
+  mg : List (Option Bool)
+  ma : List (Option Bool)
+  /-- per constraint: did `ParseConstraint` of its printed form give it back (`none` = error) -/
+  rt : List (Option Bool)
+
+/-- `avo[i]` = avo's `Evaluate` under assignment `i`; `tool[i]` = the toolchain's
+decision on the same text (`none` = rejected). -/
+def acceptEvals (avo : List Bool) (tool : List (Option Bool)) : Bool := tool == avo.map some
+
+/-- The executable form of the property on one observation. -/
+def Obs.ok (o : Obs) : Bool :=
+  !o.fmtErr && !o.rejected &&
+  o.tcb == o.ev.map some && o.mg == o.ev.map some && o.ma == o.ev.map some &&
+  o.rt.all (· == some true)
 
 /-- Number of tags in an expression. -/
 def Expr.leaves : Expr → Nat
